@@ -180,7 +180,7 @@ inductive Sim where
   | timeout
 
 /-- The innermost loop of `_recover` for one stack entry: follow reductions on ERROR without
-popping (as written), then shift ERROR and probe the lookahead. -/
+popping (as written; a missing goto entry ends the simulation), then shift ERROR and probe the lookahead. -/
 def simulate (T : Tables) (la : Int) : Nat → Int → Sim
   | 0, _ => .timeout
   | n + 1, state =>
@@ -194,7 +194,7 @@ def simulate (T : Tables) (la : Int) : Nat → Int → Sim
         | some rule =>
           match find T.gotos state rule with
           | .oob => .oob
-          | .miss => simulate T la n 0
+          | .miss => .notFound   -- `if !ok { break }` (repaired defect D30: the pinned template continued in state 0)
           | .hit st => simulate T la n st
       else
         match find T.actions action la with
